@@ -132,6 +132,7 @@ package metric
 // tolerance of the v3.1 Appendix A algorithm) and less than 0.1 above it. Proved symbolically (bit-blasted Float64).
 //@ func roundUp(input float64) float64
 //@   inline
+//@   thorough
 //@   modifies nothing
 //@   ensures[C06r] input >= 0.0 && input <= 10.0 ==> result >= 0.0 && result <= 10.0
 //@   ensures[C06r] input >= 0.0 && input <= 10.0 ==> result >= input - 0.00001 && result <= input + 0.10001
